@@ -51,13 +51,20 @@ struct Charge {
     amount: OwnedAmount,
 }
 
+/// Folds line breaks in the statement text into spaces.
+/// Payee, code and comments are printed as a part of one line in Ledger format,
+/// so a line break in them would be read back as another posting or transaction.
+fn to_single_line(text: &str) -> String {
+    text.replace("\r\n", " ").replace(['\r', '\n'], " ")
+}
+
 impl Txn {
     pub fn new(date: NaiveDate, payee: &str, amount: OwnedAmount) -> Txn {
         Txn {
             date,
             effective_date: None,
             code: None,
-            payee: payee.to_string(),
+            payee: to_single_line(payee),
             comments: Vec::new(),
             dest_account: None,
             clear_state: None,
@@ -78,17 +85,17 @@ impl Txn {
     }
 
     pub fn code_option<'a>(&'a mut self, code: Option<&str>) -> &'a mut Txn {
-        self.code = code.map(str::to_string);
+        self.code = code.map(to_single_line);
         self
     }
 
     pub fn code<'a>(&'a mut self, code: &str) -> &'a mut Txn {
-        self.code = Some(code.to_string());
+        self.code = Some(to_single_line(code));
         self
     }
 
     pub fn add_comment(&mut self, comment: String) -> &mut Txn {
-        self.comments.push(comment);
+        self.comments.push(to_single_line(&comment));
         self
     }
 
